@@ -33,6 +33,37 @@ type Evaluator struct {
 	pkg   *ssa.Package
 	bound map[string]SVal
 	pre   *State // loop-entry state, for pre()
+	heads func(n int) (*State, func(string, *State) (SVal, bool))
+	calls func(name string, k int) *State
+	side  *[]Term // collector of well-formedness facts for values read under the innermost quantifier
+	noSide int    // >0: inside a negative position; do not attach side facts
+}
+
+// note records that a value of type t was read from ev.st: its well-formedness may be assumed
+func (ev *Evaluator) note(t types.Type, v Term) {
+	if t == nil {
+		return
+	}
+	switch types.Unalias(t).Underlying().(type) {
+	case *types.Pointer, *types.Map, *types.Slice, *types.Basic:
+	default:
+		if !isTimeTime(t) {
+			return
+		}
+	}
+	facts := ev.fx.wfFacts(ev.st, t, v, 0)
+	if len(facts) == 0 {
+		return
+	}
+	if ev.fx.s.inQuant > 0 {
+		if ev.side != nil && ev.noSide == 0 {
+			*ev.side = append(*ev.side, facts...)
+		}
+		return
+	}
+	for _, f := range facts {
+		ev.fx.s.assume(ev.st.guard, f)
+	}
 }
 
 func (fx *FnCtx) evalIn(e Expr, env map[string]SVal, st, old *State, lk func(string, *State) (SVal, bool)) SVal {
@@ -84,7 +115,10 @@ func (ev *Evaluator) eval(e Expr) SVal {
 	case *EUnary:
 		switch x.Op {
 		case "!":
-			return SVal{v: Val{t: not(ev.eval(x.X).v.t)}, typ: boolT}
+			ev.noSide++
+			a := ev.eval(x.X).v.t
+			ev.noSide--
+			return SVal{v: Val{t: not(a)}, typ: boolT}
 		case "-":
 			a := ev.eval(x.X)
 			return SVal{v: Val{t: "(- " + a.v.t + ")"}, typ: a.typ}
@@ -94,7 +128,9 @@ func (ev *Evaluator) eval(e Expr) SVal {
 			if !ok {
 				unsupported("spec: * applied to non-pointer")
 			}
-			return SVal{v: Val{t: fx.load(ev.st, fx.ptrLoc(p.v, pt.Elem()))}, typ: pt.Elem()}
+			lv := fx.load(ev.st, fx.ptrLoc(p.v, pt.Elem()))
+			ev.note(pt.Elem(), lv)
+			return SVal{v: Val{t: lv}, typ: pt.Elem()}
 		case "&":
 			// &s[i] only
 			if ix, ok := x.X.(*EIndex); ok {
@@ -246,7 +282,10 @@ func (ev *Evaluator) binary(x *EBinary) SVal {
 	case "||":
 		return SVal{v: Val{t: or(ev.eval(x.X).v.t, ev.eval(x.Y).v.t)}, typ: boolT}
 	case "==>":
-		return SVal{v: Val{t: implies(ev.eval(x.X).v.t, ev.eval(x.Y).v.t)}, typ: boolT}
+		ev.noSide++
+		a := ev.eval(x.X).v.t
+		ev.noSide--
+		return SVal{v: Val{t: implies(a, ev.eval(x.Y).v.t)}, typ: boolT}
 	case "<==>":
 		return SVal{v: Val{t: eq(ev.eval(x.X).v.t, ev.eval(x.Y).v.t)}, typ: boolT}
 	}
@@ -356,7 +395,9 @@ notpkg:
 	si := fx.tm.structInfo(t)
 	for i := 0; i < st.NumFields(); i++ {
 		if st.Field(i).Name() == x.Name {
-			return SVal{v: Val{t: "(" + si.Fields[i].Sel + " " + v + ")"}, typ: st.Field(i).Type()}
+			fv := "(" + si.Fields[i].Sel + " " + v + ")"
+			ev.note(st.Field(i).Type(), fv)
+			return SVal{v: Val{t: fv}, typ: st.Field(i).Type()}
 		}
 	}
 	// promoted fields through embedded structs
@@ -388,7 +429,9 @@ func (ev *Evaluator) index(x *EIndex) SVal {
 	case *types.Slice:
 		key, srt := fx.tm.heapKey(t.Elem())
 		h := fx.heap(ev.st, key, srt)
-		return SVal{v: Val{t: fmt.Sprintf("(select %s (mkref (sobj %s) (+ (soff %s) %s)))", h, b.v.t, b.v.t, i.v.t)}, typ: t.Elem()}
+		ev2 := fmt.Sprintf("(select %s (mkref (sobj %s) (+ (soff %s) %s)))", h, b.v.t, b.v.t, i.v.t)
+		ev.note(t.Elem(), ev2)
+		return SVal{v: Val{t: ev2}, typ: t.Elem()}
 	case *types.Basic:
 		return SVal{v: Val{t: fmt.Sprintf("(str.to_code (str.at %s %s))", b.v.t, i.v.t)}, typ: types.Typ[types.Uint8]}
 	case *types.Map:
@@ -411,6 +454,18 @@ func (ev *Evaluator) index(x *EIndex) SVal {
 	return SVal{}
 }
 
+func dedupTerms(ts []Term) []Term {
+	seen := map[string]bool{}
+	var out []Term
+	for _, t := range ts {
+		if !seen[t] {
+			seen[t] = true
+			out = append(out, t)
+		}
+	}
+	return out
+}
+
 func (ev *Evaluator) resolveType(name string) (types.Type, string) {
 	name = strings.TrimSpace(name)
 	switch name {
@@ -418,6 +473,8 @@ func (ev *Evaluator) resolveType(name string) (types.Type, string) {
 		return nil, "Ref"
 	case "Time":
 		return nil, "Time"
+	case "Stream":
+		return nil, "Stream"
 	}
 	if strings.HasPrefix(name, "*") {
 		t, _ := ev.resolveType(name[1:])
@@ -480,7 +537,11 @@ func (ev *Evaluator) quant(x *EQuant) SVal {
 		}
 	}
 	fx.s.inQuant++
+	var side []Term
+	savedSide := ev.side
+	ev.side = &side
 	body := ev.eval(x.Body).v.t
+	ev.side = savedSide
 	fx.s.inQuant--
 	for _, v := range x.Vars {
 		delete(ev.bound, v.Name)
@@ -491,6 +552,13 @@ func (ev *Evaluator) quant(x *EQuant) SVal {
 	q := "forall"
 	if x.Forall {
 		body = implies(and(ranges...), body)
+		if len(side) > 0 && ev.noSide == 0 {
+			if fx.assumeMode {
+				body = and(append(dedupTerms(side), body)...)
+			} else {
+				body = implies(and(dedupTerms(side)...), body)
+			}
+		}
 	} else {
 		q = "exists"
 		body = and(append(ranges, body)...)
@@ -551,6 +619,23 @@ func (ev *Evaluator) call(x *ECall) SVal {
 		case "loc":
 			t := ev.eval(x.Args[0])
 			return SVal{v: Val{t: "(t_loc " + t.v.t + ")"}, sort: "Ref"}
+		case "toInt":
+			s := ev.eval(x.Args[0])
+			return SVal{v: Val{t: "(str.to_int " + s.v.t + ")"}, typ: intT}
+		case "civilMidnight":
+			// the instant time.Date(y, m, d, 0, 0, 0, 0, loc) denotes, presented in loc
+			y, m, d, l := ev.eval(x.Args[0]), ev.eval(x.Args[1]), ev.eval(x.Args[2]), ev.eval(x.Args[3])
+			fx.ufun("civil_ns", []string{"Int", "Int", "Int", "Int", "Int", "Int", "Int", "Ref"}, "Int")
+			return SVal{v: Val{t: fmt.Sprintf("(mktime (civil_ns %s %s %s 0 0 0 0 %s) %s)", y.v.t, m.v.t, d.v.t, l.v.t, l.v.t)}, sort: "Time"}
+		case "parsedDate":
+			// the value time.ParseInLocation(layout, s, loc) returns when it succeeds
+			lay, sv, l := ev.eval(x.Args[0]), ev.eval(x.Args[1]), ev.eval(x.Args[2])
+			fx.ufun("parsetime_ns", []string{"String", "String", "Ref"}, "Int")
+			return SVal{v: Val{t: fmt.Sprintf("(mktime (parsetime_ns %s %s %s) %s)", lay.v.t, sv.v.t, l.v.t, l.v.t)}, sort: "Time"}
+		case "validDate":
+			lay, sv := ev.eval(x.Args[0]), ev.eval(x.Args[1])
+			fx.ufun("parsetime_ok", []string{"String", "String"}, "Bool")
+			return SVal{v: Val{t: fmt.Sprintf("(parsetime_ok %s %s)", lay.v.t, sv.v.t)}, typ: boolT}
 		case "hasPrefix":
 			s := ev.eval(x.Args[0])
 			p := ev.eval(x.Args[1])
@@ -559,6 +644,48 @@ func (ev *Evaluator) call(x *ECall) SVal {
 			s := ev.eval(x.Args[0])
 			fx.s.global("isDigits", `(define-fun isDigits ((s String)) Bool (str.in_re s (re.* (re.range "0" "9"))))`)
 			return SVal{v: Val{t: "(isDigits " + s.v.t + ")"}, typ: boolT}
+		case "athead":
+			// athead(n, e): e evaluated in the state at the head of loop n (start of the current iteration)
+			if ev.heads == nil {
+				unsupported("spec: athead() not available here")
+			}
+			n, ok := x.Args[0].(*EInt)
+			if !ok {
+				unsupported("spec: athead(n, e) needs a literal loop ordinal")
+			}
+			var ord int
+			fmt.Sscan(n.V, &ord)
+			hst, hlk := ev.heads(ord)
+			sub := *ev
+			sub.st = hst
+			sub.lk = hlk
+			return sub.eval(x.Args[1])
+		case "atcall", "precall":
+			// atcall("callee", k, e): e evaluated in the state right after the k-th call (1-based) of callee
+			if ev.calls == nil {
+				unsupported("spec: atcall() not available here")
+			}
+			nm, ok1 := x.Args[0].(*EStr)
+			kk, ok2 := x.Args[1].(*EInt)
+			if !ok1 || !ok2 {
+				unsupported("spec: atcall(\"callee\", k, e)")
+			}
+			var k int
+			fmt.Sscan(kk.V, &k)
+			if x.Fun == "precall" {
+				k = -k
+			}
+			cst := ev.calls(nm.V, k)
+			sub := *ev
+			sub.st = cst
+			return sub.eval(x.Args[2])
+		case "snil":
+			return SVal{v: Val{t: "snil"}, sort: "Stream"}
+		case "uint64", "int64", "uint32", "int32", "uint8", "bool", "float32", "float64", "string":
+			if len(x.Args) == 1 {
+				a := ev.eval(x.Args[0])
+				return SVal{v: a.v, typ: types.Universe.Lookup(x.Fun).Type()}
+			}
 		case "ite":
 			c := ev.eval(x.Args[0])
 			a := ev.eval(x.Args[1])
@@ -680,19 +807,23 @@ func (ev *Evaluator) specFunc(sf *SpecFunc, argExprs []Expr) SVal {
 	}
 	if sf.Body != nil {
 		// defined function: substitute (macro expansion) in the callee's package scope
-		sub := &Evaluator{fx: fx, env: map[string]SVal{}, st: ev.st, old: ev.old, pkg: fx.eng.pkgByPath[sf.Pkg], bound: map[string]SVal{}}
+		sub := &Evaluator{fx: fx, env: map[string]SVal{}, st: ev.st, old: ev.old, pkg: fx.eng.pkgByPath[sf.Pkg], bound: map[string]SVal{},
+			pre: ev.pre, heads: ev.heads, calls: ev.calls, side: ev.side, noSide: ev.noSide}
 		for k, v := range ev.bound {
 			sub.bound[k] = v
 		}
 		for i, p := range sf.Params {
-			t, srt := sub.resolveType(p.Type)
 			a := args[i]
-			if t != nil {
-				a.typ = t
-			} else {
-				a.sort = srt
+			if p.Type != "?" { // "?": polymorphic parameter, keeps the argument's own type
+				t, srt := sub.resolveType(p.Type)
+				if t != nil {
+					a.typ = t
+				} else {
+					a.sort = srt
+				}
 			}
 			sub.env[p.Name] = a
+			delete(sub.bound, p.Name) // parameters shadow quantified variables of the caller
 		}
 		r := sub.eval(sf.Body)
 		if rt, srt := sub.resolveType(sf.Ret); rt != nil {
@@ -899,7 +1030,38 @@ func (fr *Frame) evalSpec(e Expr, st *State, li *loopInfo) SVal {
 	if li != nil {
 		ev.pre = li.preSt
 	}
+	ev.heads = fr.headsFunc()
 	return ev.eval(e)
+}
+
+// headsFunc gives access to the state (and variable values) at the head of loop n of this frame
+func (fr *Frame) headsFunc() func(n int) (*State, func(string, *State) (SVal, bool)) {
+	return func(n int) (*State, func(string, *State) (SVal, bool)) {
+		for _, li := range fr.loops {
+			if li.ordinal == n {
+				if li.hdrSt == nil {
+					unsupported("spec: athead(%d, ..) used before loop %d is reached", n, n)
+				}
+				l := li
+				return l.hdrSt, func(name string, s *State) (SVal, bool) {
+					if name == "$i" || name == "$k" {
+						if l.rangeIx == nil {
+							unsupported("spec: $i outside a range-index loop")
+						}
+						return SVal{v: Val{t: "(+ " + l.phiVals[l.rangeIx].t + " 1)"}, typ: intT}, true
+					}
+					for phi, v := range l.phiVals {
+						if phi.Comment == name {
+							return SVal{v: v, typ: phi.Type()}, true
+						}
+					}
+					return fr.lookupName(name, s, l)
+				}
+			}
+		}
+		unsupported("spec: no loop %d", n)
+		return nil, nil
+	}
 }
 
 func (fr *Frame) evalClause(c *Clause, st *State, li *loopInfo) Term {
@@ -911,5 +1073,18 @@ func (fr *Frame) evalPost(e Expr, vals []Val, st *State) Term {
 	env := map[string]SVal{}
 	fx.bindResults(env, fr.fn, vals)
 	lk := func(name string, s *State) (SVal, bool) { return fr.lookupName(name, s, nil) }
-	return fx.evalIn(e, env, st, fx.entry, lk).v.t
+	ev := &Evaluator{fx: fx, env: env, st: st, old: fx.entry, lk: lk, pkg: fx.pkg, bound: map[string]SVal{}}
+	ev.heads = fr.headsFunc()
+	ev.calls = func(name string, k int) *State {
+		l := fr.callStates[name]
+		if k < 0 {
+			l = fr.preCallStates[name]
+			k = -k
+		}
+		if k < 1 || k > len(l) {
+			unsupported("spec: atcall(%q, %d): no such call", name, k)
+		}
+		return l[k-1]
+	}
+	return ev.eval(e).v.t
 }
